@@ -118,6 +118,8 @@ pub enum Op {
     /// sync, drop, open with a new configuration
     Reopen(CfgSpec),
     Read(u64, u64),
+    /// read-only public calls: 0 stat, 1 on_disk_size, 2 dump text, 3 dump_data iteration, 4 access_stat/config
+    Misc(u8),
 }
 
 impl Op {
@@ -134,6 +136,7 @@ impl Op {
             Op::Sync => "sync",
             Op::Reopen(_) => "reopen",
             Op::Read(..) => "read",
+            Op::Misc(_) => "misc",
         }
     }
     pub fn is_write(&self) -> bool {
@@ -152,6 +155,7 @@ impl Op {
             Op::Sync => json!("sync"),
             Op::Reopen(c) => json!({"reopen": c.to_json()}),
             Op::Read(a, b) => json!({"read": [a, b]}),
+            Op::Misc(k) => json!({"misc": k}),
         }
     }
     /// compact form for evidence samples
@@ -168,6 +172,7 @@ impl Op {
             Op::Sync => "sync".into(),
             Op::Reopen(c) => format!("reopen(rec={:?},size={:?})", c.max_records, c.max_size),
             Op::Read(a, b) => format!("read({},{})", a, b),
+            Op::Misc(k) => format!("misc{}", k),
         }
     }
     pub fn from_json(v: &Value) -> Option<Op> {
@@ -200,6 +205,7 @@ impl Op {
             "flush" => Op::Flush { cb: x.as_bool()? },
             "reopen" => Op::Reopen(CfgSpec::from_json(x)),
             "read" => Op::Read(x.get(0)?.as_u64()?, x.get(1)?.as_u64()?),
+            "misc" => Op::Misc(x.as_u64()? as u8),
             _ => return None,
         })
     }
@@ -472,6 +478,43 @@ impl Store {
             trace::note(Ek::DropBegin { inst: self.inst });
             drop(rl);
             trace::note(Ek::DropEnd { inst: self.inst });
+        }
+    }
+
+    /// read-only public calls (C16)
+    pub fn misc(&self, k: u8) -> Outcome {
+        let rl = self.rl();
+        let r = guarded(|| -> Result<(), std::io::Error> {
+            match k {
+                0 => {
+                    let s = rl.stat();
+                    let _ = format!("{} {:#}", s, s);
+                }
+                1 => {
+                    let _ = rl.on_disk_size();
+                }
+                2 => {
+                    rl.dump().write_to_string()?;
+                }
+                3 => {
+                    let mut d = rl.dump_data();
+                    let _ = d.state();
+                    for e in d.iter() {
+                        e?;
+                    }
+                }
+                _ => {
+                    let _ = rl.access_stat();
+                    let _ = rl.config();
+                    let _ = rl.log_state();
+                }
+            }
+            Ok(())
+        });
+        match r {
+            Ok(Ok(())) => Outcome::Ok(None),
+            Ok(Err(e)) => Outcome::Err(e.to_string()),
+            Err(p) => Outcome::Panic(p),
         }
     }
 
